@@ -178,10 +178,14 @@ def build_loop(b, bb, kind, it_op, stages, c, clo_op, extra):
         else:
             g = _graft(b, copy.deepcopy(sc), sop, [{'k': 'use', 'op': {'k': 'move', 'place': _pl(l_cur)}}], span)
             link(g['entry'])
+            # the mapped item lives in a local of its own (single assignment: it is not a loop-carried variable)
+            l_new = len(b['locals'])
+            b['locals'].append({'i': l_new, 'ty': '<desugared>', 'mut': True})
             nxt = len(b['blocks'])
-            b['blocks'].append(mk([asg(_pl(l_cur), {'k': 'use', 'op': {'k': 'move', 'place': _pl(g['ret'])}})], goto(None)))
+            b['blocks'].append(mk([asg(_pl(l_new), {'k': 'use', 'op': {'k': 'move', 'place': _pl(g['ret'])}})], goto(None)))
             b['blocks'][g['exit']]['term'] = goto(nxt)
             tail = nxt
+            l_cur = l_new
         grafted.append(g)
         M._resolve_ref_aliases(b, g['lbase'])
     if kind == 'extend':
